@@ -130,7 +130,8 @@ def gen_code(rng, F, fail_bias=0.5):
 
 
 def node_name(rng):
-    return rng.choice([b"t0", b"t1", b"t15", b"n", b"node-with-dash", b"a.b.c", b"t[0-3]", b"x" * rng.randrange(1, 40)])
+    return rng.choice([b"t0", b"t1", b"t15", b"n", b"node-with-dash", b"a.b.c", b"t[0-3]", b"x" * rng.randrange(1, 40), b"t0", b"t1",
+                       b"%s%d", b"\xff\xfe", b"on", b"303", b"t0:"])
 
 
 def reply_status(rng, node, F):
@@ -320,7 +321,7 @@ def compositions(data, limit=None):
 def gen_lib_exhaustive(F, tier):
     """every split of short streams; every 2- and 3-split of a few longer ones"""
     cases = []
-    full = [PROMPT, b"\r\n" + PROMPT, b"1\r\n" + PROMPT] if tier == "quick" else [PROMPT, b"\r\n" + PROMPT, b"1\r\n" + PROMPT, b"1 \r\n" + PROMPT, b"powerman>"]
+    full = [PROMPT, b"\r\n" + PROMPT, b"1\r\n" + PROMPT] if tier == "quick" else [PROMPT, b"\r\n" + PROMPT, b"1\r\n" + PROMPT, b"1 \r\n" + PROMPT, b"powerman>", b"x" + PROMPT + b"\r\n", b"\x00\r\n" + PROMPT]
     for s in full:
         for c in compositions(s):
             cases.append(dict(kind="lib", ops=[("r",)], chunks=c, tag="exhaustive"))
@@ -410,7 +411,7 @@ def gen_cli_fixed(F):
 
 def generate(ctx, F, scale=1, fixed=True):
     rng, tier = ctx.rng, ctx.tier
-    n = dict(quick=dict(session=4000, recv=4000, arb=2500, big=30, cli=900), thorough=dict(session=60000, recv=60000, arb=40000, big=240, cli=8000))[tier]
+    n = dict(quick=dict(session=4000, recv=4000, arb=2500, big=30, cli=900), thorough=dict(session=150000, recv=150000, arb=100000, big=400, cli=16000))[tier]
     if scale != 1:
         n = dict((k, int(v * scale)) for k, v in n.items())
     cases = gen_lib_exhaustive(F, tier) if fixed else []
@@ -529,7 +530,7 @@ def split_reply(seg):
     parts = body.split(b"\r\n")
     lines, tailpiece = parts[:-1], parts[-1]
     clean = ended and tailpiece == b"" and b"\x00" not in seg and seg.count(PROMPT) == 1 and len(lines) >= 1 \
-        and all(re.match(rb"^\d\d\d [^\r\n]*$", l) for l in lines)
+        and all(re.match(rb"^\d\d\d [^\r\n]*\Z", l) for l in lines)
     return lines, ended, clean
 
 
@@ -557,7 +558,8 @@ def monitor_lib(case, impl, F):
         if kind == "c":
             # two exchanges; soundness only
             cints = [lead_int(l) for piece in seg.split(PROMPT) for l in piece.split(b"\r\n")]
-            if r["rc"] == 0 and not weird and sum(1 for i in cints if i is not None and is_success(i)) < 2:
+            cweird = b"\x00" in seg or any(i is not None and abs(i) >= 2 ** 31 for i in cints)
+            if r["rc"] == 0 and not cweird and sum(1 for i in cints if i is not None and is_success(i)) < 2:
                 bad.append(("success_sound", "pm_connect", "pm_connect returned PM_ESUCCESS but the stream %r does not contain two success codes" % seg[:200]))
             continue
         if kind == "d":
@@ -604,7 +606,7 @@ def monitor_lib(case, impl, F):
                 bad.append(("nodes", "node_iter", "iteration after reset differs"))
             if b"\x00" not in seg:
                 cand = [l for l in lines if l.startswith(b"307")]
-                if all(re.match(rb"^307 [^\s]+$", l) and len(l) + 2 < L for l in cand):
+                if all(re.match(rb"^307 [^\s]+\Z", l) and len(l) + 2 < L for l in cand):
                     exp = [l[4:] for l in cand]
                     if got != exp:
                         bad.append(("nodes", "node_iter", "nodes %r, the reply lists %r" % ([g[:20] for g in got[:8]], [e[:20] for e in exp[:8]])))
@@ -635,14 +637,14 @@ def ref_cli(npre, stream, F):
         if stream[pos:pos + len(s)] != s: return False
         pos += len(s); return True
     l = line()
-    if l is None or not re.match(rb"^001 \S+$", l): return None
+    if l is None or not re.match(rb"^001 \S+\Z", l): return None
     vers = l[4:]
     if not lit(PROMPT): return None
     out, diag, terms = b"", b"", []
     for i in range(npre + 1):
         while True:
             l = line()
-            if l is None or not re.match(rb"^\d\d\d [^\r\n]+$", l): return None
+            if l is None or not re.match(rb"^\d\d\d [^\r\n]+\Z", l): return None
             k = int(l[:3])
             if k == 309: diag += l[4:] + b"\n"
             elif k not in (103, 104, 105): out += l[4:] + b"\n"
@@ -757,7 +759,7 @@ class Runner:
         return a.get("x"), b.get("x")
 
     def cli(self, case):
-        r = cli_drv.run_cases(self.powerman, [dict(id="x", flags=case["flags"], stream=case["stream"], cuts=case.get("cuts", []))], workers=1, timeout=6.0)[0]
+        r = cli_drv.run_cases(self.powerman, [dict(id="x", flags=case["flags"], stream=case["stream"], cuts=case.get("cuts", []))], workers=1, timeout=4.0)[0]
         b = {}
         run_model_slice(self.model, [("x", cli_line("x", case))], b)
         return r, b.get("x")
@@ -826,6 +828,12 @@ def load_corpus():
 
 def run(ctx, V):
     proofs_ok = vlib.proof_gate(ctx, V)
+    if proofs_ok and ctx.tier == "thorough":
+        # independent re-check of the compiled proofs (DESIGN 2.3): coqchk on the property module and everything it loads
+        rc, o, e = vlib.sh(["timeout", "-s", "KILL", "1200", "coqchk", "-silent", "-o", "-Q", ".", "PM", "PM.Properties.C16"], cwd=ctx.coq, shell=False, timeout=1230)
+        V.extra["coqchk"] = "rc=%d %s" % (rc, re.sub(r"\s+", " ", (o + e)[-400:]))
+        if rc != 0 or "Axioms: <none>" not in re.sub(r"\s+", " ", o + e):
+            V.tie_broken("proof", "coqchk PM.Properties.C16", (o + e)[-1500:])
     F = tree_facts(ctx)
     impl, model, powerman = build(ctx)
     R = Runner(ctx, F, impl, model, powerman)
@@ -902,7 +910,7 @@ def run(ctx, V):
         def fails(v, clause=clause, site=site):
             bad, _, _, _ = R.verdict(v)
             return any(b[0] == clause and b[1] == site for b in bad)
-        small = shrink(c, fails, budget=80 if ctx.tier == "quick" else 300)
+        small = shrink(c, fails, budget=(10 if site == "hang" else 80 if ctx.tier == "quick" else 300))
         bad, _, a, b = R.verdict(small)
         d2 = next((x[2] for x in bad if x[0] == clause and x[1] == site), detail)
         V.violation(clause, site, small_json(small), "%s\nimplementation: %s\nmodel: %s" % (d2, str(a)[:1500], str(b)[:800]))
